@@ -886,7 +886,8 @@ def check_const(case):
     jax.jit(traced)(jnp.asarray(np.int32(3)))
     require(res["w_ok"] is None, "tree_const", f"inside jit: {res['w_ok']}", case)
     require(res["dyn_kept"], "tree_const", "inside jit: a traced value was wrapped or a literal next to it was not", case)
-    require(res["u_ok"] is None and res["u_dyn"], "tree_const_unwrap", f"inside jit: {res['u_ok']}", case)
+    require(res["u_ok"] is None, "tree_const_unwrap", f"inside jit: {res['u_ok']}", case)
+    require(res["u_dyn"], "tree_const_unwrap", "inside jit: tree_const_unwrap(tree_const((.., x, ('s', x)))) did not give back x and 's'", case)
 
 
 def check_pythonic(case):
